@@ -252,6 +252,10 @@ impl RefName {
         kani::assume(k <= NL);
         let len: [usize; NL] = kani::any();
         let oct: [[u8; LO]; NL] = kani::any();
+        Self::from_parts(k, len, oct)
+    }
+
+    fn from_parts(k: usize, len: [usize; NL], oct: [[u8; LO]; NL]) -> Self {
         let mut buf = [0u8; NBUF];
         let n_labels = k + 1;
         let wire_at = 1 + n_labels;
@@ -430,32 +434,47 @@ pub(crate) fn bnd_name_eq_or_subdomain_of() {
     assert!(a.name().eq_or_subdomain_of(b.name()) == ref_subdomain(&a, &b));
 }
 
+/// Octet-by-octet slice equality (explicit loop; the harness slices are <= WMAX).
+fn same(a: &[u8], b: &[u8]) -> bool {
+    if a.len() != b.len() {
+        return false;
+    }
+    let mut i = 0;
+    while i < a.len() {
+        if a[i] != b[i] {
+            return false;
+        }
+        i += 1;
+    }
+    true
+}
+
 /// [C16.labels] `len`, `wire_repr`, `Index<usize>`, `labels()`, `is_root`,
 /// `wire_repr_to`, `wire_repr_from` agree with the reference view.
 #[kani::proof]
-#[kani::unwind(6)]
+#[kani::unwind(17)]
 pub(crate) fn bnd_name_label_access() {
     let a = RefName::any();
     let n = a.name();
     assert!(n.len() == a.k + 1);
-    assert!(n.wire_repr() == a.wire());
+    assert!(same(n.wire_repr(), a.wire()));
     assert!(n.is_root() == (a.k == 0));
     let i: usize = kani::any();
     kani::assume(i <= a.k + 1);
     if i <= a.k {
-        assert!(n[i].octets() == a.label(i));
+        assert!(same(n[i].octets(), a.label(i)));
         assert!(n[i].is_null() == (i == a.k));
     }
     let off = if i <= a.k { a.offset(i) } else { a.wire_len };
-    assert!(n.wire_repr_to(i) == &a.wire()[..off]);
-    assert!(n.wire_repr_from(i) == &a.wire()[off..]);
+    assert!(same(n.wire_repr_to(i), &a.wire()[..off]));
+    assert!(same(n.wire_repr_from(i), &a.wire()[off..]));
     // the iterator yields the labels in order, then stops
     let mut it = n.labels();
     let mut j = 0;
     while j < NL + 1 {
         if j <= a.k {
             match it.next() {
-                Some(l) => assert!(l.octets() == a.label(j)),
+                Some(l) => assert!(same(l.octets(), a.label(j))),
                 None => assert!(false),
             }
         }
@@ -467,7 +486,7 @@ pub(crate) fn bnd_name_label_access() {
 /// [C16.lowercase] `make_ascii_lowercase` folds the label octets in place and
 /// leaves the structure (label count, offsets, length octets) alone.
 #[kani::proof]
-#[kani::unwind(6)]
+#[kani::unwind(17)]
 pub(crate) fn bnd_name_make_ascii_lowercase() {
     let mut a = RefName::any();
     let before = a.buf;
@@ -657,33 +676,61 @@ pub(crate) fn bnd_name_display_fromstr_roundtrip() {
     }
 }
 
+/// [C16.superdomain] `superdomain(skip)` is `None` iff there are not enough
+/// labels, else the name made of the labels from `skip` on (real allocation).
 #[kani::proof]
 #[kani::unwind(17)]
-pub(crate) fn dbg_refname() {
+pub(crate) fn bnd_name_superdomain() {
     let a = RefName::any();
-    kani::assume(a.k == 3 && a.len[0] == 2 && a.len[1] == 1 && a.len[2] == 1);
-    let n = a.name();
-    assert!(n.len() == 4);
-    assert!(a.wire_len == 8);
-    assert!(n.wire_repr().len() == 8);
-    assert!(n.wire_repr() == a.wire());
-    assert!(a.buf[0] == 4 && a.buf[1] == 0 && a.buf[2] == 3 && a.buf[3] == 5 && a.buf[4] == 7);
-    assert!(n[2].len() == 1);
-    assert!(n[2].octets()[0] == a.oct[2][0]);
-    assert!(a.label(2).len() == 1);
-    assert!(a.label(2)[0] == a.oct[2][0]);
+    let skip: usize = kani::any();
+    kani::assume(skip <= a.k + 2);
+    match a.name().superdomain(skip) {
+        None => assert!(skip > a.k),
+        Some(sup) => {
+            assert!(skip <= a.k);
+            assert!(sup.len() == a.k + 1 - skip);
+            assert!(sup.wire_repr() == &a.wire()[a.offset(skip)..]);
+            assert!(sup[0].octets() == a.label(skip));
+        }
+    }
+}
+
+/// [C16.labelbuf] `LabelBuf` (the HashMap key type) compares and hashes exactly
+/// like the `Label` it holds (labels <= 16 octets).
+#[kani::proof]
+#[kani::unwind(82)]
+pub(crate) fn bnd_labelbuf_agrees_with_label_16() {
+    let (ba, bb): ([u8; 16], [u8; 16]) = (kani::any(), kani::any());
+    let (a, b) = (any_label(&ba), any_label(&bb));
+    let (oa, ob) = (a.to_owned(), b.to_owned());
+    assert!(oa.octets() == a.octets());
+    assert!((oa == ob) == (a == b));
+    assert!(oa.cmp(&ob) == a.cmp(b));
+    let (mut h1, mut h2) = (Rec::new(), Rec::new());
+    a.hash(&mut h1);
+    oa.hash(&mut h2);
+    assert!(h1.n == h2.n);
+    assert!(h1.b == h2.b);
 }
 
 #[kani::proof]
-#[kani::unwind(17)]
-pub(crate) fn dbg_subdomain() {
+#[kani::unwind(6)]
+pub(crate) fn dbg_sub_classes() {
     let (a, b) = (RefName::any(), RefName::any());
-    kani::assume(a.k == 3 && a.len[0] == 2 && a.len[1] == 1 && a.len[2] == 1);
-    kani::assume(b.k == 3 && b.len[0] == 2 && b.len[1] == 1 && b.len[2] == 1);
-    kani::assume(a.oct[0][0] == 0 && a.oct[0][1] == 60 && a.oct[1][0] == 2 && a.oct[2][0] == 91);
-    kani::assume(b.oct[0][0] == 0 && b.oct[0][1] == 60 && b.oct[1][0] == 1 && b.oct[2][0] == 64);
     let r = a.name().eq_or_subdomain_of(b.name());
     let s = ref_subdomain(&a, &b);
-    assert!(!s);
-    assert!(!r);
+    if r != s {
+        assert!(a.k != b.k, "class: equal k");
+        assert!(a.k <= b.k, "class: a.k > b.k");
+        assert!(a.k >= b.k, "class: a.k < b.k");
+        assert!(!r, "class: real true, ref false");
+        assert!(r, "class: real false, ref true");
+        assert!(b.k != 0, "class: b.k == 0");
+        assert!(b.k != 1, "class: b.k == 1");
+        assert!(b.k != 2, "class: b.k == 2");
+        assert!(b.k != 3, "class: b.k == 3");
+        assert!(a.k != 1, "class: a.k == 1");
+        assert!(a.k != 2, "class: a.k == 2");
+        assert!(a.k != 3, "class: a.k == 3");
+    }
 }
